@@ -281,7 +281,7 @@ def check_files(chk, case, rc, err, files, rp):
 def check_C11(chk):
     build = vlib.build_repo("hooks")
     drv = vlib.build_driver("scn_driver", build, libs=("-lcgreen", "-lxml2"))
-    chk.prove(["Properties_C11.v"])
+    chk.prove(["Properties_C11.v", "Properties_Code_Xml.v"])
     chk.cov["trusted_base"] = TRUSTED + ["axioms: see coverage.print_assumptions"]
     cases = scenarios(chk)
     # the attribute escaping of the xml reporter translated whole from src/xml_reporter.c (concat_escaped, concat),
